@@ -1,5 +1,121 @@
-(* C10 — pinned statements; proofs are in Server/*Proofs.v. *)
-From ZV Require Import Server.Server Server.ServerExec.
+(* C10 — streaming replies are delivered in order and the connection resumes afterwards.
+   Only pinned statements; proofs are in Server/ServerQueue.v (queue discipline), ServerInv.v and
+   ServerThms.v (per-connection invariant incl. parked connections), ServerNonint.v (reference) and
+   ServerPairs.v (a failed item write is local). *)
+From ZV Require Import Server.Server Server.ServerSpec Server.ServerStruct Server.ServerQueue
+  Server.ServerInv Server.ServerPairs Server.ServerThms Server.ServerLocal Server.ServerNonint
+  Server.ServerExamples.
 
-Example C10_nonvacuous : True.
-Proof. exact I. Qed.
+(* Items are delivered in order, for every script and every stream name: what the streams named
+   [key] have yielded so far, followed by what is still queued for that name, is exactly what the
+   environment (the service's stream) pushed for it, in that order.  Each yielded item is written at
+   once, to the connection the stream is parked with, with the service's own continues flag (the
+   flag is part of the item): that is [C08_no_cross_talk] (pairing) and the shape of [chunk]. *)
+Theorem C10_items_in_order :
+  forall (P : params) (key : nat) (E : list (eev P)) (s0 : sstate P) (s : sv P) (T : list (tev P)),
+  exec P E (init_sv P s0) = (s, T) ->
+  yields P key T ++ pending P key (squeue s) = pushes P key E.
+Proof. exact queue_discipline. Qed.
+Print Assumptions C10_items_in_order.
+
+(* Resumption: the statement of C08 covers streaming calls.  Whenever the executor has polled and
+   the connection is back in the call list (all its streams have ended), EVERY frame has been
+   handled, in order, each once — the calls the client pipelined behind a streaming call included,
+   none lost: the frames buffered while the connection was parked survive the move between the
+   stream list and the call list. *)
+Theorem C10_resume :
+  forall (P : params), (0 < p_step P)%N ->
+  forall (c : nat) (fs : list (list byte)),
+  Forall frame_ok fs -> (forall f, In f fs -> decode P f <> None) ->
+  (N.of_nat (length (wire fs)) < p_limit P)%N ->
+  forall (E : list (eev P)) (s0 : sstate P) (s : sv P) (T : list (tev P)),
+  clean P c E -> input_of P false c E = wire fs ->
+  exec P (E ++ [Poll]) (init_sv P s0) = (s, T) -> stat s = Running ->
+  In c (map cid (conns s)) ->
+  exists hcs : list (hcall P),
+    map (fun h => Some (h_cl h)) hcs = map (decode P) fs /\
+    Forall (complete P) hcs /\
+    view P c T = TAccept c :: flat_map (chunk P c) hcs /\
+    writes P c T = flat_map (resp_writes P) hcs.
+Proof. exact per_connection_sequential. Qed.
+Print Assumptions C10_resume.
+
+(* While the stream is open: the connection is parked, every frame up to the streaming call has
+   been handled, every event queued for its stream has been delivered, and nothing behind the
+   streaming call has been touched. *)
+Theorem C10_parked :
+  forall (P : params), (0 < p_step P)%N ->
+  forall (c : nat) (fs : list (list byte)),
+  Forall frame_ok fs -> (forall f, In f fs -> decode P f <> None) ->
+  (N.of_nat (length (wire fs)) < p_limit P)%N ->
+  forall (E : list (eev P)) (s0 : sstate P) (s : sv P) (T : list (tev P)),
+  clean P c E -> input_of P false c E = wire fs ->
+  exec P (E ++ [Poll]) (init_sv P s0) = (s, T) -> stat s = Running ->
+  In c (map skx (streams s)) ->
+  exists done rest hcs h,
+    fs = done ++ rest /\ map (fun h => Some (h_cl h)) (hcs ++ [h]) = map (decode P) done /\
+    Forall (complete P) hcs /\
+    h_ans h = AMulti /\ oneway P (h_cl h) = false /\ h_ended h = false /\
+    pop_key P (skey P (h_cl h)) (squeue s) = None /\
+    view P c T = TAccept c :: flat_map (chunk P c) (hcs ++ [h]).
+Proof. exact connection_view_parked. Qed.
+Print Assumptions C10_parked.
+
+(* The sequential reference, for services with per-connection state and honest names: the view of a
+   well-behaved connection after a poll is the accept followed by the transcripts of [ref_hcs] — its
+   calls handled one after the other by the local handler, each streaming call taking the events
+   pushed for its stream, in order, up to the end of that stream, and the calls behind it answered
+   afterwards — independently of all other connections and of all interleavings. *)
+Theorem C10_stream_reference :
+  forall (P : params) (L : local P), (0 < p_step P)%N ->
+  forall (c : nat) (fs : list (list byte)),
+  Forall frame_ok fs -> (forall f, In f fs -> decode P f <> None) ->
+  (N.of_nat (length (wire fs)) < p_limit P)%N ->
+  forall (E : list (eev P)) (s0 : sstate P) (s : sv P) (T : list (tev P)),
+  clean P c E -> input_of P false c E = wire fs ->
+  exec P (E ++ [Poll]) (init_sv P s0) = (s, T) -> stat s = Running -> keys_ok P c T ->
+  view P c T = if existsb (fun e => match e with NewConn c' => Nat.eqb c' c | _ => false end) E
+               then ref_view P L c fs (pushes P c E) (proj P L c s0) else [].
+Proof. exact view_determined. Qed.
+Print Assumptions C10_stream_reference.
+
+(* A client that becomes unwritable mid-stream loses that subscription only: the failed write of
+   an item removes that stream entry (stream and connection are dropped), leaves the call list, the
+   listener queue, the service and every other parked stream alone, and every event of the
+   iteration concerns the failing connection.  (That the other connections' outputs are unchanged by
+   whatever happens to this one is C09_noninterference.) *)
+Theorem C10_write_failure_local :
+  forall (P : params) (s : sv P) (idx key : nat) (x : conn) (r : item P),
+  nth_error (streams s) idx = Some (key, x) ->
+  existsb (Nat.eqb (wcnt x)) (wfail x) = true ->
+  exists s', on_stream P s idx (SItem r)
+             = (Progress, s', [TSYield (cid x) key (SItem r); TWriteFail (cid x) (WItem r);
+                               TSDrop (cid x) key; TDrop (cid x)]) /\
+    conns s' = conns s /\ accq s' = accq s /\ sst s' = sst s /\
+    streams s' = swap_remove idx (streams s) /\
+    (forall j y, j <> idx -> nth_error (streams s) j = Some y -> In y (streams s')).
+Proof. exact stream_write_failure_local. Qed.
+Print Assumptions C10_write_failure_local.
+
+(* Non-vacuity: connection 1 pipelines a plain call, a streaming call "s1" and two calls behind it
+   in one burst; two items and the end of the stream arrive later, interleaved with connection 0.
+   The hypotheses of C10_resume / C10_stream_reference hold; the items are written in order and the
+   two pipelined calls are answered after the stream ended. *)
+Example C10_nonvacuous :
+  let fs := [[97;1]; [115;1]; [98;1]; [99;1]]%N in
+  let E := [NewConn 0; NewConn 1; Arrive 1 [97;1;0;115;1;0;98;1;0;99;1;0]%N; Poll;
+            @StreamItem ex_params 1 [7]%N; Arrive 0 [66;0]%N; Poll; @StreamItem ex_params 1 [8]%N;
+            StreamEnd 1] : list (eev ex_params) in
+  Forall frame_ok fs /\ (forall f, In f fs -> decode ex_params f <> None) /\
+  clean ex_params 1 E /\ input_of ex_params false 1 E = wire fs /\
+  let (s, T) := exec ex_params (E ++ [Poll]) (init_sv ex_params tt) in
+  stat s = Running /\ In 1 (map cid (conns s)) /\ keys_ok ex_params 1 T /\
+  writes ex_params 1 T = [WSingle [97;1]; WItem [7]; WItem [8]; WSingle [98;1]; WSingle [99;1]]%N.
+Proof.
+  cbv zeta. split; [repeat constructor; discriminate|]. split.
+  { intros f [<-|[<-|[<-|[<-|[]]]]]; discriminate. }
+  split; [repeat constructor; discriminate|]. split; [reflexivity|].
+  destruct (exec ex_params _ (init_sv ex_params tt)) as [s T] eqn:E1.
+  vm_compute in E1. inversion E1; subst s T.
+  split; [reflexivity|]. split; [cbn; auto|]. split; [apply keys_okb_ok; reflexivity|]. reflexivity.
+Qed.
